@@ -111,18 +111,26 @@ impl CoreDID {
   ///
   /// Returns `Err` if the input is not a valid [`DID`].
   pub fn parse(input: impl AsRef<str>) -> Result<Self, Error> {
-    let input: &str = input.as_ref();
-    // The underlying parser ignores surrounding whitespace and control characters but keeps them
-    // in the stored string, which shifts every component: only accept input it parses verbatim.
-    if input.trim_matches(|ch: char| ch.is_ascii_control() || ch.is_ascii_whitespace()) != input {
-      return Err(Error::InvalidScheme);
+    // did = "did:" method-name ":" method-specific-id
+    let rest: &str = input.as_ref().strip_prefix(Self::SCHEME).ok_or(Error::InvalidScheme)?;
+    let rest: &str = rest.strip_prefix(':').ok_or(Error::InvalidMethodName)?;
+    let (method, method_id): (&str, &str) = rest.split_once(':').unwrap_or((rest, ""));
+    if method.is_empty() {
+      return Err(Error::InvalidMethodName);
     }
-    // The underlying parser skips one character too many after a percent-encoded triple, so a
-    // method id ending in one would leave its component offsets past the end of the string.
-    if input.len() >= 3 && input.as_bytes()[input.len() - 3] == b'%' {
+    Self::valid_method_name(method)?;
+    if method_id.is_empty() {
       return Err(Error::InvalidMethodId);
     }
-    Self::try_from(BaseDIDUrl::parse(input)?)
+    Self::valid_method_id(method_id)?;
+
+    // The underlying parser skips the character that follows a percent-encoded triple (and panics
+    // when a triple ends the input), so it only sees a placeholder; the components validated
+    // above are then put in place.
+    let mut base: BaseDIDUrl = BaseDIDUrl::parse("did:a:a")?;
+    base.set_method(method);
+    base.set_method_id(method_id);
+    Ok(Self(base))
   }
 
   /// Set the method name of the [`DID`].
